@@ -157,6 +157,8 @@ def _gram_cd_epoch(scaled_gram, w, grad, penalty, greedy_cd):
 
         # update w_j
         old_w_j = w[j]
+        if scaled_gram[j, j] == 0.:  # null feature: nothing to gain, 1 / lipschitz_j is undefined
+            continue
         step = 1 / scaled_gram[j, j]  # 1 / lipschitz_j
         w[j] = penalty.prox_1d(old_w_j - step * grad[j], step, j)
 
